@@ -4,8 +4,8 @@
 set -u
 SEED=$(cd "$1" && pwd); ID=$2; TIER=${3:-quick}
 name=$(basename "$SEED")
-WT=/tmp/wt/seedrun-$name
-OUT=/tmp/seedout/$name
+WT=/tmp/wt/seedrun-$name-$ID
+OUT=/tmp/seedout/$name-$ID
 mkdir -p "$OUT"
 git -C /repo worktree remove --force "$WT" >/dev/null 2>&1
 git -C /repo worktree add -q --detach "$WT" HEAD || exit 2
